@@ -73,17 +73,48 @@ class Editor:
         self.n = 0
         self.stale = []     # old unique tokens that must not show up any more
         self.lost = []      # assignments that did not take effect
+        self.must = {}      # (id(obj), attr) -> unique token that has to show up in db.dbml from now on
+        self.keep = []      # keeps edited objects alive so ids stay unique
 
     def tok(self, p='zz'):
         self.n += 1
         return f'{p}E{self.n}q'
 
+    def expect_token(self, obj, attr, tokn):
+        self.must[(id(obj), attr)] = tokn
+        self.keep.append(obj)
+
     def set(self, obj, attr, val):
         """assignment through the public attribute + read-back: what was assigned is the final content"""
+        self.must.pop((id(obj), attr), None)                 # a later assignment supersedes an expected token
+        if attr == 'text' and getattr(obj, 'parent', None) is not None:
+            self.must.pop((id(obj.parent), 'note'), None)
         setattr(obj, attr, val)
         got = getattr(obj, attr)
         if not (got is val or (type(got) is type(val) and got == val)):
             self.lost.append(f'{type(obj).__name__}.{attr} = {val!r} reads back as {got!r}')
+
+    def add_twin_index(self, t):
+        """a second index that differs from an existing one only in its comment"""
+        from pydbml.classes import Index
+        src = self.rng.choice(t.indexes)
+        t.add_index(Index(list(src.subjects), name=src.name, unique=src.unique, type=src.type, pk=src.pk,
+                          note=src.note.text if src.note else None, comment=self.tok('twin index ')))
+
+    def remove_index_by_object(self, t):
+        """delete_index(obj): afterwards exactly that object is gone, the others are still there in order"""
+        victim = t.indexes[-1] if self.rng.random() < 0.6 else self.rng.choice(t.indexes)
+        before = list(t.indexes)
+        t.delete_index(victim)
+        def key(ix):      # structural equality of indexes as documented (every attribute but the owner), computed here
+            return (tuple(id(x) if not isinstance(x, str) and not hasattr(x, 'text') else getattr(x, 'text', x) for x in ix.subjects),
+                    ix.name, ix.unique, ix.type, ix.pk, ix.note.text if ix.note else None, ix.comment)
+        first_equal = next(x for x in before if key(x) == key(victim))
+        want = [x for x in before if x is not first_equal]
+        got = list(t.indexes)
+        if len(got) != len(want) or any(a is not b for a, b in zip(got, want)):
+            self.lost.append(f'delete_index(obj): indexes afterwards {[getattr(x, "comment", None) for x in got]}, expected the list without '
+                             f'the given object {[getattr(x, "comment", None) for x in want]}')
 
     def twin_default(self, c):
         """assign a default that compares == to the current one but is a different value for rendering"""
@@ -100,6 +131,8 @@ class Editor:
         n = Note(c.note.text)
         self.set(c, 'note', n)          # same text, new object
         n.text = self.tok('edited note ')
+        self.must = {k: v for k, v in self.must.items() if k != (id(c), 'note')}
+        self.expect_token(c, 'note', n.text)
 
     def edits(self):
         from pydbml.classes import Column, Index, EnumItem, Note, Expression, Enum
@@ -116,14 +149,17 @@ class Editor:
                 # schemas are shared between tables / enums, every other name token belongs to one object
                 if isinstance(old, str) and old.endswith('q') and attr != 'schema':
                     self.stale.append(old)
-                setattr(obj, attr, self.tok(attr[:2]))
+                newv = self.tok(attr[:2])
+                setattr(obj, attr, newv)
+                if attr in ('name', 'alias') and type(obj).__name__ in ('Table', 'Column', 'Enum', 'EnumItem', 'TableGroup', 'Project', 'StickyNote'):
+                    self.expect_token(obj, attr, newv)
             return f
         if T:
             t = rng.choice(T)
             out += [('rename-table', rename(t, 'name')), ('rename-schema', rename(t, 'schema')),
                     ('rename-alias', rename(t, 'alias')),
                     ('schema-public', lambda: self.set(t, 'schema', 'public')),
-                    ('alias-none', lambda: self.set(t, 'alias', None)),
+                    ('alias-none', lambda: (self.set(t, 'alias', None), self.must.pop((id(t), 'alias'), None))),
                     ('table-note-replace', lambda: self.set(t, 'note', Note(self.tok('note ')))),
                     ('table-note-inplace', lambda: self.set(t.note, 'text', self.tok('note '))),
                     ('table-color', lambda: self.set(t, 'header_color', rng.choice([None, '#abc', '#112233']))),
@@ -136,6 +172,8 @@ class Editor:
                     ]
             if t.indexes:
                 out.append(('remove-index', lambda: t.delete_index(rng.randrange(len(t.indexes)))))
+                out.append(('add-twin-index', lambda: self.add_twin_index(t)))
+                out.append(('remove-index-by-object', lambda: self.remove_index_by_object(t)))
                 ix = rng.choice(t.indexes)
                 out += [('index-name', lambda: self.set(ix, 'name', rng.choice([None, self.tok('ixn')]))),
                         ('index-flags', lambda: (self.set(ix, 'unique', not ix.unique), self.set(ix, 'type', rng.choice([None, 'gin', 'brin'])))),
@@ -231,6 +269,11 @@ def run_history(sh, db, origin, rng, tracer, suite='random', maxlen=12, case_see
                 kk = 'exception' if isinstance(a, tuple) or isinstance(b, tuple) else 'text'
                 sh.violation('stale', f'differs-from-rebuilt:{what}:{kk}:after-{kind}',
                              f'after {steps}: {key}: live {str(a)[:300]!r} != rebuilt {str(b)[:300]!r}', case, {'edit': kind})
+        d_ = live.get('db.dbml')
+        if isinstance(d_, str):
+            for (oid, attr), tokn in ed.must.items():
+                if tokn not in d_:
+                    sh.violation('stale', f'new-value-missing:{attr}:after-{kind}', f'after {steps}: the assigned {attr} {tokn!r} does not show up in db.dbml', case, {'edit': kind})
         for tokn in ed.stale:
             for key in ('db.dbml', 'db.sql'):
                 v = live.get(key)
@@ -245,6 +288,9 @@ def one_case(sh, case_seed, tracer):
     rng = random.Random(case_seed)
     doc = gen.random_doc(rng, rng.choice(['small', 'small', 'medium']), 'plain', flavours=('tok',),
                          props=rng.random() < 0.3, ml_small_notes=False)
+    for t in doc.tables:
+        if t.alias == t.name:
+            t.alias = None          # the staleness scan needs every name token to belong to one attribute only
     tracer.phase = 'build'
     if rng.random() < 0.5:
         db, err = parse(surface.render(doc, case_seed), allow_properties=doc.allow_properties)
@@ -268,7 +314,7 @@ def run_shard(spec, tier, seed, budget_s):
     sh = Shard(ID, budget_s)
     i = spec['shard']
     rng = random.Random(f'{seed}-c10-{i}')
-    target = {'quick': 40, 'thorough': 1500}[tier]
+    target = {'quick': 150, 'thorough': 2500}[tier]
     k = 0
     with monitors.WriteTracer() as tracer:
         while k < target and not sh.out_of_time():
@@ -285,7 +331,7 @@ def run_shard(spec, tier, seed, budget_s):
     return sh
 
 
-NEED_EDITS = ['column-default-equal-twin', 'column-note-same-text-then-edit', 'rename-table', 'rename-schema', 'rename-alias', 'rename-column', 'rename-enum', 'column-type-str', 'column-type-enum',
+NEED_EDITS = ['add-twin-index', 'remove-index-by-object', 'column-default-equal-twin', 'column-note-same-text-then-edit', 'rename-table', 'rename-schema', 'rename-alias', 'rename-column', 'rename-enum', 'column-type-str', 'column-type-enum',
               'column-flag', 'column-default', 'column-note-replace', 'column-note-inplace', 'table-note-replace', 'ref-kind',
               'ref-inline', 'ref-name', 'ref-actions', 'add-column', 'add-index', 'add-enum-item', 'remove-index', 'rename-group']
 
